@@ -252,6 +252,7 @@ def check_soc(case):
     H01 = [np.array([g.Hk(k) for k in kpts]) for g in gm]
     L = sms[0].lattice
     first = None
+    stale = None
     for ia in case["order"]:
         alpha = float(case["alphas"][ia])
         s = itp.interpolate(alpha)
@@ -285,6 +286,15 @@ def check_soc(case):
         if d > TOL:
             b = f"endpoint{int(alpha)}-H" if alpha in (0.0, 1.0) else "affine-k"
             raise Violation(b, f"Data_K_soc.HH_K at alpha={alpha} differs from the affine combination by {d:.2e}")
+        if stale is None:  # the centres used by the Fourier machinery (raised after everything else was examined)
+            wr = (1 - alpha) * gm[0].wcc_red + alpha * gm[1].wcc_red
+            wantd = np.array([(1 - alpha) * wbsys.Model(L, wr, gm[0].iRvec, gm[0].mats).Xk("Ham", kk, der=1)
+                              + alpha * wbsys.Model(L, wr, gm[1].iRvec, gm[1].mats).Xk("Ham", kk, der=1) for kk in kpts])
+            dd = reldiff(_unrotate(dk, dk.Xbar("Ham", 1)), wantd)
+            if dd > TOL:
+                end = f" (so the system at alpha={int(alpha)} is not system{int(alpha)})" if alpha in (0.0, 1.0) else ""
+                stale = ("centres-not-used", f"alpha={alpha}: dH/dk in the code's convention differs by {dd:.2e} from the "
+                         f"one with centres (1-alpha) t0 + alpha t1{end}")
         k = np.array(case["k"])
         Hk = (1 - alpha) * gm[0].Hk(k) + alpha * gm[1].Hk(k)
         E = np.array(wb.evaluate_k(s, k=k, quantities=["energy"]))
@@ -296,6 +306,8 @@ def check_soc(case):
         raise Violation("input-mutated", "the SystemSOC objects given to SystemInterpolatorSOC were changed")
     if not _soc_unchanged(first[1], first[2]):
         raise Violation("result-aliased", f"the system returned for alpha={first[0]} changed during later calls")
+    if stale is not None:
+        raise Violation(*stale)
 
     def rs(x):
         return {tuple(R) for R in np.asarray(x).tolist()}
@@ -306,6 +318,6 @@ def check_soc(case):
 
 
 SUBS = [
-    Sub("plain", plain_case_st(), check_plain, quick=200, thorough=3200),
-    Sub("soc", soc_case_st(), check_soc, quick=100, thorough=1600),
+    Sub("plain", plain_case_st(), check_plain, quick=200, thorough=3200, budget_quick=75, budget_thorough=500),
+    Sub("soc", soc_case_st(), check_soc, quick=100, thorough=1600, budget_quick=75, budget_thorough=500),
 ]
